@@ -394,3 +394,32 @@ func VerifC06GoIntConstants()     { c06IntConstantsRun("go") }
 func VerifC06JavaIntConstants()   { c06IntConstantsRun("java") }
 func VerifC06PHPIntConstants()    { c06IntConstantsRun("php") }
 func VerifC06PythonIntConstants() { c06IntConstantsRun("python") }
+
+// VerifC10ChainUnionDefault (C10): a union of constants and their type with a default (`"x" | "y" | string`,
+// default "y" — CUE's `*"y"`), as a field or an object, through the Go and Python chains: whatever the
+// chain turns the union into, the default it declares must still be there with the same value.
+func VerifC10ChainUnionDefault() {
+	lang := v.Str("lang", "go", "python")
+	u := ast.NewDisjunction(ast.Types{
+		ast.NewScalar(ast.KindString, ast.Value("x")),
+		ast.NewScalar(ast.KindString, ast.Value("y")),
+		ast.String(),
+	})
+	dflt := v.Str("default", "y", "x", "other")
+	u.Default = dflt
+	p := ast.NewSchema("p", ast.SchemaMeta{})
+	f := ast.NewStructField("kind", u)
+	f.Required = v.Bool("required")
+	p.AddObject(ast.NewObject("p", "Foo", ast.NewStruct(f)))
+	out, err := chainOf(lang).Process(ast.Schemas{p})
+	if err != nil {
+		v.Reach("chain returned an error")
+		return
+	}
+	foo, ok := out.LocateObject("p", "Foo")
+	v.Assert(ok && foo.Type.IsStruct() && len(foo.Type.Struct.Fields) == 1, "C10 (setup): the chain lost the object or its field")
+	if !ok || !foo.Type.IsStruct() || len(foo.Type.Struct.Fields) != 1 {
+		return
+	}
+	v.Assert(v.DeepEqual(foo.Type.Struct.Fields[0].Type.Default, any(dflt)), "C10: the default a union of constants declares is altered or dropped by the language's chain")
+}
